@@ -52,6 +52,20 @@ def run_batch(ctx, n, with_model=True):
                 if out != base:
                     ctx.violation(f"{what} changes the result: {json.dumps(base)[:80]} -> {json.dumps(out)[:80]} for {text[:160]}",
                                   {"text": text, "env": common.enc_env(env), "transformation": what, "detail": detail, "base": base, "after": out})
+            # the long-lived evaluator and a fresh one agree (no call changes a later call) — also for values that
+            # compare equal in Python but print differently (1, 1.0, True)
+            if prog.splitters:
+                sp = prog.splitters[0]
+                if sp not in prog.cond_fields():
+                    for v in rng.sample([1, 1.0, True, 0, 0.0, False, -0.0, "1", 7, 7.0], 4):
+                        e2 = dict(env); e2[sp] = v
+                        a = common.outcome_of(lambda: ev(**e2))
+                        b = common.outcome_of(lambda: evaluator(text)(**e2))
+                        ctx.count("transform:fresh evaluator")
+                        if a != b:
+                            ctx.violation(f"the result depends on earlier calls: {sp}={v!r} gives {json.dumps(a)[:60]} on a used evaluator and "
+                                          f"{json.dumps(b)[:60]} on a fresh one: {text[:140]}",
+                                          {"text": text, "env": common.enc_env(e2), "used": a, "fresh": b})
             extra = {("zz_extra_%d" % i): rng.choice([1, "x", None, 2.5]) for i in range(rng.randint(1, 3))}
             expect_same("extra keyword arguments", lambda: ev(**env, **extra), list(extra))
             expect_same("argument order", lambda: ev(**dict(reversed(list(env.items())))), None)
